@@ -105,11 +105,13 @@ ApplyConfig(m, o, e, obj, step) ==
   THEN R(m, o, IF e.exc # NoExc /\ e.exc # "timeout" THEN Ok ELSE F("config.rejected", step, "an exception", e.exc), 0) ELSE
   \* a new tolerance with the same period (C13): the bounds mean what they meant, the counter of the next data set uses it
   \* (also on an online monitor, and with the same period re-stated in another unit: the operators keep their sample counts)
-  IF "tol" \in DOMAIN e /\ m.phase \in {"parsed", "offline", "online", "pastified"} /\ e.period = m.cfg.period
-  THEN R([m EXCEPT !.cfg = [m.cfg EXCEPT !.tol = e.tol]], o, ExcClass(TRUE, e, "config.exc", step), 0) ELSE
   \* set_var_io_type() and parse() again on an object that was not fed online yet (C06): the predicates follow the new declarations
-  IF "io" \in DOMAIN e /\ m.phase \in {"parsed", "offline"}
-  THEN R([m EXCEPT !.cfg = [m.cfg EXCEPT !.M = [sem |-> m.cfg.M.sem, io |-> e.io]]], o, ExcClass(TRUE, e, "config.exc", step), 0) ELSE
+  \* (both are the machine's action Reconfigure)
+  LET cfg1 == IF "tol" \in DOMAIN e /\ e.period = m.cfg.period THEN [m.cfg EXCEPT !.tol = e.tol] ELSE m.cfg
+      cfg2 == IF "io" \in DOMAIN e THEN [cfg1 EXCEPT !.M = [sem |-> cfg1.M.sem, io |-> e.io]] ELSE cfg1 IN
+  IF ("io" \in DOMAIN e /\ m.phase \in {"parsed", "offline"})
+     \/ ("io" \notin DOMAIN e /\ "tol" \in DOMAIN e /\ m.phase \in {"parsed", "offline", "online", "pastified"} /\ e.period = m.cfg.period)
+  THEN R(ReconfigureF(m, cfg2), o, ExcClass(TRUE, e, "config.exc", step), 0) ELSE
   IF ~IsWritten(obj) \/ m.phase \notin {"parsed", "offline"} THEN R(m, [o EXCEPT !.dead = TRUE], Ok, 0)
   ELSE LET st == NormStatus(obj.written, e.units) IN
        IF st = "overflow" THEN R(m, [o EXCEPT !.dead = TRUE], Ok, 1)
